@@ -532,9 +532,89 @@ func c13BinCase(g *Gen) {
 	g.Emit("binverify %s %s %s/%s", hx(enc()), exp, what, sigWhat)
 }
 
+// c13ReplayCase: histories in one process. A genuine transaction A of sender S is verified
+// first; then other transactions with from=S that carry A's signature bytes (different
+// to / value / nonce / ... => different id) are verified, in JSON and in binary form, and A
+// again.  Whatever was verified before, B verifies only with a signature over B's own id.
+func c13ReplayCase(g *Gen) {
+	if g.Intn(2) == 0 {
+		t := c12NewTx(g, false)
+		t.sign(g, 0)
+		a := hx([]byte(c12Text(g, g.Intn(3), t.obj)))
+		g.Emit("txverify %s %s history/genuine-first", a, t.expect())
+		n := 1 + g.Intn(3)
+		for k := 0; k < n; k++ {
+			for tries := 0; tries < 10; tries++ {
+				m, same, w := c12Mutate(g, t)
+				if !same && !strings.HasPrefix(w, "data") && !strings.HasPrefix(w, "drop-data") {
+					g.Emit("txverify %s n history/replayed-signature-%s", hx([]byte(c12Text(g, g.Intn(3), m))), w)
+					break
+				}
+			}
+		}
+		if g.Intn(2) == 0 {
+			g.Emit("txverify %s %s history/genuine-again", a, t.expect())
+		}
+		return
+	}
+	key := c13Key(g)
+	d := &c13V3Data{}
+	d.Version.Value = 3
+	d.From.Set(common.NewAccountAddressFromPublicKey(key.PublicKey()))
+	d.To.SetTypeAndID(g.Intn(3) == 0, g.Bytes(20))
+	d.Value = common.NewHexInt(int64(g.Intn(1 << 30)))
+	d.StepLimit.SetInt64(int64(g.Intn(1 << 30)))
+	d.TimeStamp.Value = int64(g.R.Uint64() >> uint(8+g.Intn(40)))
+	d.Nonce = common.NewHexInt(int64(g.Intn(1000)))
+	enc := func() []byte {
+		bs, err := codec.BC.MarshalToBytes(d)
+		if err != nil {
+			panic(err)
+		}
+		return bs
+	}
+	tx, err := transaction.NewTransaction(enc())
+	if err != nil {
+		panic(err)
+	}
+	s, err := crypto.ParseSignature(c13Sign(tx.ID(), key))
+	if err != nil {
+		panic(err)
+	}
+	d.Signature.Signature = s
+	a := hx(enc())
+	g.Emit("binverify %s v history/genuine-first", a)
+	n := 1 + g.Intn(3)
+	for k := 0; k < n; k++ {
+		w := ""
+		switch g.Intn(4) {
+		case 0:
+			d.To.SetTypeAndID(false, g.Bytes(20))
+			w = "to"
+		case 1:
+			d.Value = common.NewHexInt(d.Value.Int64() + 1 + int64(g.Intn(1000)))
+			w = "value"
+		case 2:
+			d.Nonce = common.NewHexInt(d.Nonce.Int64() + 1)
+			w = "nonce"
+		default:
+			d.TimeStamp.Value++
+			w = "timestamp"
+		}
+		g.Emit("binverify %s n history/replayed-signature-%s", hx(enc()), w)
+	}
+	if g.Intn(2) == 0 {
+		g.Emit("binverify %s v history/genuine-again", a)
+	}
+}
+
 func c13Gen(g *Gen) {
 	for i := 0; i < g.N; i++ {
-		switch g.Intn(17) {
+		// a case = a history of 16 generator steps in one process state
+		if i%16 == 0 {
+			g.Emit("reset")
+		}
+		switch g.Intn(19) {
 		case 0:
 			n := g.Pick(0, 1, 32, 63, 64, 64, 65, 65, 65, 66, 128, 130)
 			b := g.Bytes(n)
@@ -599,9 +679,44 @@ func c13Gen(g *Gen) {
 			c13TxCase(g)
 		case 15, 16:
 			c13BinCase(g)
+		case 17, 18:
+			c13ReplayCase(g)
 		default:
 			c13TypedTxCase(g)
 		}
+	}
+}
+
+// c13ReplayProbe (oracle only, no output): right after a transaction was accepted, the same
+// JSON with one signed field changed and the signature kept must be rejected.
+func c13ReplayProbe(o *Oracle, js []byte) {
+	var m map[string]interface{}
+	if json.Unmarshal(js, &m) != nil {
+		return
+	}
+	for _, k := range []string{"timestamp", "to", "zzprobe"} {
+		m2 := map[string]interface{}{}
+		for kk, vv := range m {
+			m2[kk] = vv
+		}
+		switch k {
+		case "timestamp":
+			m2[k] = "0x1234567"
+		case "to":
+			m2[k] = "hx00000000000000000000000000000000000000aa"
+		default:
+			m2[k] = "x"
+		}
+		js2, err := json.Marshal(m2)
+		if err != nil {
+			return
+		}
+		tx2, err := transaction.NewTransactionFromJSON(js2)
+		if err != nil {
+			continue
+		}
+		o.Count("replay-probe")
+		o.Check(tx2.Verify() != nil, "unauthorized-transaction-verifies", "history: after a genuine transaction was verified, the same signature on a transaction with another %s verifies: %s", k, js2)
 	}
 }
 
@@ -782,6 +897,15 @@ func (c13Runner) Step(t []string, o *Oracle) string {
 		got := "verified"
 		if err := tx.Verify(); err != nil {
 			got = "rejected"
+		}
+		// legal call order: Verify is called several times on one object
+		again := "verified"
+		if err := tx.Verify(); err != nil {
+			again = "rejected"
+		}
+		o.Check(again == got, "verify-not-repeatable", "first %s then %s", got, again)
+		if got == "verified" && t[0] == "txverify" {
+			c13ReplayProbe(o, unhx(t[1]))
 		}
 		pre := "tx-"
 		if t[0] == "binverify" {
